@@ -17,7 +17,12 @@ def _sources():
   leaves = [1, [1, 2], (3,), [{'p': 1}], ({'q': [2]},)]
   level1 = [{'a': x} for x in leaves] + [{'a': 1, 'b': [5]}, {'b': 2, 'a': 1}, {}]
   level2 = [{'x': d, 'y': 7} for d in level1] + [{'x': {'a': {'deep': [{'z': 1}]}}}]
-  return level1 + level2
+  import collections
+  # dict SUBCLASSES nested in the source are dicts too: they must be copied, not shared
+  sub = [{'cfg': collections.OrderedDict([('lr', 1), ('wd', collections.OrderedDict([('k', 2)]))])},
+         {'x': {'inner': collections.defaultdict(int, {'n': 3})}, 'y': 1},
+         {'cfg': {'lr': 1, 'wd': 2, 'sub': {'b': 1, 'a': 2}}}]
+  return level1 + level2 + sub
 
 
 def _plain(t):
@@ -117,6 +122,14 @@ def _check_source(src):
   rev = freeze({k: want[k] for k in reversed(list(want.keys()))})
   if rev != fd or (h is not None and hash(rev) != h):
     return 'equal contents in another insertion order do not compare / hash equal'
+
+  def deep_rev(t):
+    return {k: deep_rev(t[k]) for k in reversed(list(t.keys()))} if isinstance(t, dict) else t
+  drev = freeze(deep_rev(want))
+  if drev != fd or (h is not None and hash(drev) != h):
+    return 'equal contents with the NESTED dicts built in another key order do not compare / hash equal'
+  if h is not None and hash(freeze(unfreeze(fd))) != h:
+    return 'freeze(unfreeze(fd)) hashes differently from fd'
   if h is not None:
     if pickle.loads(pickle.dumps(fd)) != fd:
       return 'pickle round trip is not equal'
